@@ -10,6 +10,9 @@ import McpModel.Wire.LemmasSse
 import McpModel.Wire.LemmasBytes
 import McpModel.Wire.LemmasConc
 import McpModel.Wire.LemmasRef
+import McpModel.Wire.LemmasClone
+import McpModel.Wire.LemmasAnn
+import McpModel.Wire.LemmasRetry
 /-!
 # C19 (and the E2 part of C02) — property theorems of the wire engine
 
@@ -185,6 +188,31 @@ theorem concurrent_writes_framed (ws : List (List Bytes)) (ops : List CWOp)
 /-- non-vacuity: two writers, frames in two pieces each; the second cannot get in between -/
 example : (CW.run { waiting := [[[1], [2, 10]], [[3], [4, 10]]] } [.acquire 1, .piece, .acquire 0, .piece, .acquire 0, .piece, .piece]).out
     = [3, 4, 10, 1, 2, 10] := by decide
+
+/-! ## multi round trip: what a retried request carries -/
+
+/-- **retry_roundtrip.**  For every params value (members `rest`, none of them `inputResponses` / `requestState`),
+every set of fulfilled responses — each an object with a discriminating member — and every request state: the
+retried request carries the responses and the state INTACT (the member values are exactly the ones
+`setMultiRoundTripRetryParams` assigned; both omitted when empty), and the server decodes them
+(`InputResponseMap.UnmarshalJSON`) to the same keys, each with the kind of its response, and the same state. -/
+theorem retry_roundtrip (rest rs : List (Bytes × JVal)) (state : Bytes) (kind : JVal → RespKind)
+    (h1 : lookup retry_InputResponses_name rest = none) (h2 : lookup retry_RequestState_name rest = none)
+    (hk : ∀ p ∈ rs, respKindOf p.2 = .ok (kind p.2)) :
+    lookup retry_InputResponses_name (retryParams rest rs state) = (if rs = [] then none else some (.obj rs)) ∧
+    lookup retry_RequestState_name (retryParams rest rs state) = (if state = [] then none else some (.str state)) ∧
+    decodeRetry (retryParams rest rs state) = .ok (rs.map (fun p => (p.1, kind p.2)), state) :=
+  L.retry_roundtrip rest rs state kind h1 h2 hk
+
+/-- the three response types are told apart by `roots`, then `action`, then `role`; an object with none is refused -/
+theorem resp_kind_discriminated (kvs : List (Bytes × JVal)) :
+    ((lookup probe_Roots_name kvs).isSome = true → respKindOf (.obj kvs) = .ok .roots) ∧
+    ((lookup probe_Roots_name kvs) = none → (lookup probe_Action_name kvs).isSome = true → respKindOf (.obj kvs) = .ok .elicit) ∧
+    ((lookup probe_Roots_name kvs) = none → (lookup probe_Action_name kvs) = none → (lookup probe_Role_name kvs).isSome = true →
+      respKindOf (.obj kvs) = .ok .sampling) ∧
+    ((lookup probe_Roots_name kvs) = none → (lookup probe_Action_name kvs) = none → (lookup probe_Role_name kvs) = none →
+      respKindOf (.obj kvs) = .error ()) :=
+  L.resp_kind_discriminated kvs
 
 /-! ## the `CompleteReference` codec -/
 
